@@ -27,6 +27,7 @@ _RealLock = threading.Lock
 _RealRLock = threading.RLock
 
 _active = None  # the Scheduler currently running, if any
+_held = {}  # sim tid -> number of library locks (SimLocks) it currently holds
 _HARNESS_DIR = os.path.dirname(os.path.dirname(os.path.abspath(__file__))) + os.sep
 _tls = threading.local()
 
@@ -62,6 +63,7 @@ class SimLock:
             if self._real.acquire(False):
                 self._owner = me
                 self._count += 1
+                _held[me[1]] = _held.get(me[1], 0) + 1
                 return True
             if not blocking:
                 return False
@@ -75,6 +77,9 @@ class SimLock:
             sched.blocked(me[1], self)
 
     def release(self):
+        tid = current_tid()
+        if tid is not None and _held.get(tid, 0) > 0:
+            _held[tid] -= 1
         self._count -= 1
         if self._count <= 0:
             self._owner = None
@@ -177,7 +182,7 @@ class Scheduler:
         self.count[tid] += 1
         if self.record:
             co = frame.f_code
-            self.trace.append((tid, co.co_filename[len(self.prefix):], frame.f_lineno, co.co_name))
+            self.trace.append((tid, co.co_filename[len(self.prefix):], frame.f_lineno, co.co_name, _held.get(tid, 0)))
         b = self.budget[tid] - 1
         self.budget[tid] = b
         if b <= 0:
@@ -234,6 +239,7 @@ class Scheduler:
     def run(self):
         global _active
         _active = self
+        _held.clear()
         try:
             for tid in range(self.n):
                 th = threading.Thread(target=self._thread_main, args=(tid,), name="sim-%d" % tid, daemon=True)
